@@ -17,8 +17,8 @@ CONSTRAINT Closable
 INVARIANTS FlatKeepsAll Emit
 CHECK_DEADLOCK FALSE
 """
-QUICK = [("core", 7, 3, "FALSE"), ("amp", 6, 3, "FALSE"), ("atrules", 6, 3, "FALSE"), ("spine-media", 14, 5, "TRUE"), ("spine-layer", 14, 5, "TRUE")]
-THOROUGH = [("core", 9, 4, "FALSE"), ("amp", 8, 4, "FALSE"), ("atrules", 8, 4, "FALSE"), ("spine-media", 16, 6, "TRUE"), ("spine-layer", 16, 6, "TRUE")]
+QUICK = [("core", 7, 3, "FALSE"), ("amp", 6, 3, "FALSE"), ("atrules", 6, 3, "FALSE"), ("spine-media", 14, 5, "TRUE"), ("spine-layer", 14, 5, "TRUE"), ("nprops", 9, 4, "FALSE")]
+THOROUGH = [("core", 9, 4, "FALSE"), ("amp", 8, 4, "FALSE"), ("atrules", 8, 4, "FALSE"), ("spine-media", 16, 6, "TRUE"), ("spine-layer", 16, 6, "TRUE"), ("nprops", 11, 5, "FALSE")]
 
 
 def grouped(quads):
